@@ -198,3 +198,24 @@ pub fn finish(mut w: World, res: Result<(), Violation>, nontrivial: bool, states
         overrun,
     }
 }
+
+/// Human readable dump of the connection state of all nodes (for violation messages)
+pub fn dump_state(w: &World) -> String {
+    let mut out = String::new();
+    for n in 0..w.nodes.len() {
+        match w.snapshot(n) {
+            Some(s) => {
+                let now = w.node_now_s(n);
+                out.push_str(&format!(
+                    " | n{}: peers={:?} pending={:?} reconnect={:?}",
+                    n,
+                    s.peers.iter().map(|p| (w.node_by_addr(p.addr).map(|x| x as i64).unwrap_or(-1), p.timeout - now, p.init_stage)).collect::<Vec<_>>(),
+                    s.pending.iter().map(|(a, st)| (w.node_by_addr(*a).map(|x| x as i64).unwrap_or(-1), *st)).collect::<Vec<_>>(),
+                    s.reconnect.iter().map(|r| (r.resolved.iter().map(|a| w.node_by_addr(*a).map(|x| x as i64).unwrap_or(-1)).collect::<Vec<_>>(), r.tries, r.timeout, r.next - now)).collect::<Vec<_>>()
+                ));
+            }
+            None => out.push_str(&format!(" | n{}: down ({:?})", n, w.nodes[n].panicked)),
+        }
+    }
+    out
+}
